@@ -1023,7 +1023,7 @@ class XsdGroup(XsdComponent, MutableSequence[ModelParticleType],
 
                 try:
                     self.check_dynamic_context(child, xsd_element, model.element, namespaces)
-                except (XMLSchemaValidationError, TypeError) as err:
+                except (XMLSchemaValidationError, KeyError, TypeError) as err:
                     context.validation_error(validation, self, err, obj)
 
                 for particle, occurs, expected in model.advance(True):
